@@ -166,6 +166,11 @@ def all_stacks(max_depth):
 # ---------------------------------------------------------------------------
 
 
+def stop_ts(n):
+    # the second test's clock is set back while it runs ("Time is permitted to go backwards")
+    return ts(2 * n + 2) if n != 1 else ts(2 * n)
+
+
 def run_history(stack, tests, with_run_ops):
     """tests: list of (test kind, outcome, form).  -> problems"""
     flavour, layers = stack
@@ -182,7 +187,7 @@ def run_history(stack, tests, with_run_ops):
             top.time(ts(2 * n + 1))
             top.startTest(t)
             top.tags({"in%d" % n}, set())
-            top.time(ts(2 * n + 2))
+            top.time(stop_ts(n))
             details = None
             if form == "none":
                 getattr(top, outcome)(t)
@@ -320,6 +325,11 @@ def check_target(flavour, target, reported, tagger_tags, with_run_ops):
             payload = ev[2] if ev[2] is not None else (ev[3] if len(ev) > 3 else None)
             if marker + "-exc" not in text_of(payload):
                 problems.append(("exc_info", "%s target: %s delivered %r without the exception" % (flavour, block[1][0], payload)))
+    for bracket in ("startTestRun", "stopTestRun"):
+        # (one run was started and stopped - if at all; stop() and done() are no further runs)
+        nb = sum(1 for e in log if e[0] == bracket)
+        if nb > (1 if with_run_ops else 0):
+            problems.append(("run-bracket", "%s target saw %s %d times for %s" % (flavour, bracket, nb, "one run" if with_run_ops else "no run at all")))
     if idx != len(proj):
         problems.append(("extra", "%s target saw extra test events %r" % (flavour, [p[0] for p in proj[idx:]])))
     # Tagger: its tags arrive inside each test (tag-aware targets only)
@@ -356,8 +366,8 @@ def check_tbtr(sink, reported, tagger_tags, with_run_ops):
     for call, (t, outcome, form, marker, details, n) in zip(calls, reported):
         if call["test"] is not t or call["status"] not in STATUS_WORD[outcome]:
             problems.append(("tbtr", "callback %r/%r for test #%d %s" % (call["test"], call["status"], n, outcome)))
-        if call["start_time"] != ts(2 * n + 1) or call["stop_time"] != ts(2 * n + 2):
-            problems.append(("tbtr-times", "callback times %r..%r for test #%d, reported %r..%r" % (call["start_time"], call["stop_time"], n, ts(2 * n + 1), ts(2 * n + 2))))
+        if call["start_time"] != ts(2 * n + 1) or call["stop_time"] != stop_ts(n):
+            problems.append(("tbtr-times", "callback times %r..%r for test #%d, reported %r..%r" % (call["start_time"], call["stop_time"], n, ts(2 * n + 1), stop_ts(n))))
         want_tags = {"in%d" % n} | set(tagger_tags) | ({"run"} if with_run_ops else set())
         if set(call["tags"]) != want_tags:
             problems.append(("tbtr-tags", "callback tags %r for test #%d, expected %r" % (sorted(call["tags"]), n, sorted(want_tags))))
